@@ -133,6 +133,20 @@ CLAIMED["C08"] = {
     "design": "DESIGN.md section 4 C08",
 }
 
+CLAIMED["C02"] = {
+    "text": "Rocq theorems for EVERY command semantics F and every accepted program in any file order (forward references): after "
+            "run() the results solve the data-flow equations of the graph (C02_values); on an acyclic graph these equations have "
+            "exactly one solution, so a result depends on the graph and the inputs only - not on other consumers or the schedule "
+            "(C02_evaluation_unique); every permutation of the file computes the same results (C02_order); instantiated with the "
+            "EEMS cell semantics (C02_eems: scheduler model composed with Model/Cells.v, metadata not an input of the semantics). "
+            "Tied by differential runs of random well-typed EEMS models (all data commands, int/float columns, missing cells, "
+            "metadata at random argument positions, shuffled file order) against the composed Coq model, an independent exact "
+            "reference interpreter and a second rendering of the same model.",
+    "note": SCHED_NOTE + " " + CELLS_NOTE,
+    "technique": "Rocq proof (fixed-point uniqueness over the scheduler model, composed with the cell model) + differential correspondence on whole models",
+    "design": "DESIGN.md section 4 C02",
+}
+
 NOT_YET = "check not built yet (planned with the same technique, see DESIGN.md section 4); not claimed in this commit"
 
 
